@@ -3,17 +3,59 @@
    validateType against the declared argument types, then the native code (Model/C16_Eval.v `native`),
    respectively the Operator method (`apply_bin`), iteration, indexing. *)
 From PlzV Require Import Base.Harness Model.C16_Syntax Model.C16_Ops Model.C16_Prim Model.C16_Eval Model.C16 Model.C18_Config.
+From PlzV Require Import Gen.C18Pins.
+
+(* ---- isinstance (builtins.go isinstance / isType; not part of the shared evaluator) ----
+   The type arguments are the builtin functions list, dict, str, int, bool, range, callable, given by name:
+   isinstance(V, t) (single = true) or isinstance(V, [t1, ...]). *)
+Definition is_type (v : value) (name : str) : bool :=          (* isType: a type switch on the dynamic type *)
+  match v with
+  | VBool _ => str_eqb name (s "bool") || str_eqb name (s "int")
+  | VInt _ => str_eqb name (s "int")
+  | VStr _ => str_eqb name (s "str")
+  | VRange _ _ _ => str_eqb name (s "range")
+  | VList _ | VNilList => str_eqb name (s "list")
+  | VDict _ => str_eqb name (s "dict")
+  | VFunc _ | VBuiltin _ => str_eqb name (s "callable")
+  | VFrozenList _ | VFrozenDict _ | VNone => false              (* `case pyList` / `case pyDict` do not match the wrappers *)
+  end.
+
+Definition isinstance_model (unwraps : bool) (obj : value) (tys : list str) (single : bool) : bool :=
+  let obj1 := if unwraps then match obj with VFrozenList sl => VList sl | VFrozenDict i => VDict i | _ => obj end else obj in
+  let is_func := match obj1 with VFunc _ | VBuiltin _ => true | _ => false end in
+  (* the loop: li is a *pyFunc, so only the isType branch can succeed (reflect.TypeOf(obj) == *pyFunc is excluded) *)
+  if existsb (is_type obj1) tys then true
+  else if is_func then false
+  else (* reflect.TypeOf(obj) == reflect.TypeOf(typesArg): a pyList of types against a pyList object *)
+       negb single && match obj1 with VList _ | VNilList => true | _ => false end.
 
 (* the correspondence cases of C18 are interpreter runs (the case type of C16), and CONFIG round trips
    (Model/C18_Config.v run_cfg: the entries are set by a subincluded file, or by the package itself) *)
 Inductive case :=
 | CEval (c : C16.case)
-| CCfg (imported : bool) (ops : list cfgop) (reads : list (str * cfgread * str)) (body : prog) (observed : outcome).
+| CCfg (imported : bool) (ops : list cfgop) (reads : list (str * cfgread * str)) (body : prog) (observed : outcome)
+| CIsInst (imported : bool) (lit : expr) (tys : list str) (single : bool) (observed : bool).
+    (* V = lit (in the package, or in a subincluded file: frozen); r = isinstance(V, tys) *)
+
+Definition run_isinst (fuel : nat) (imported : bool) (lit : expr) (tys : list str) (single : bool) : option bool :=
+  let '(_, st0) := push_scope empty_state in
+  match eval_expr Asp [] fuel lit st0 with
+  | Ok (v, st1) =>
+      if imported then
+        match freeze 32 v st1 with
+        | Ok (fv, _) => Some (isinstance_model isinstance_unwraps fv tys single)
+        | _ => None
+        end
+      else Some (isinstance_model isinstance_unwraps v tys single)
+  | _ => None
+  end.
 
 Definition check (c : case) : bool :=
   match c with
   | CEval c0 => C16.check c0
   | CCfg imported ops reads body observed => outcome_eqb (run_cfg FUEL imported ops reads body) observed
+  | CIsInst imported lit tys single observed =>
+      match run_isinst FUEL imported lit tys single with Some b => Bool.eqb b observed | None => false end
   end.
 
 Inductive bapp :=
